@@ -70,13 +70,18 @@ class G:
         s, ms = self.seq(ev)
         m = self.pick(ms)
         val = f"{s}.First().{m}()" if self.d(st.booleans()) else f"{s}.Select(lambda f: f.{m}() * 2).First()"
-        g = self.pick(["none", "ifexp", "and", "or", "ifexp-insufficient", "none"])
+        g = self.pick(["none", "ifexp", "ifexp-else", "and", "or", "ifexp-insufficient", "ifexp-nested", "none"])
         self.labels.add("First:" + g)
         c = self.const()
         if g == "none":
             return val, None
         if g == "ifexp":
             return f"({val} if {s}.Count() > 0 else {c})", f"({val} if True else {c})"
+        if g == "ifexp-else":
+            # the guarded operation sits in the ELSE arm
+            return f"({c} if {s}.Count() == 0 else {val})", f"({c} if False else {val})"
+        if g == "ifexp-nested":
+            return f"({c} if {s}.Count() == 0 else ({val} if {s}.Count() < 3 else {val} * 2))", f"({c} if False else ({val} if {s}.Count() < 3 else {val} * 2))"
         if g == "ifexp-insufficient":
             # guard looks at a different (unfiltered / other) sequence: may still fault
             s2, _ = self.seq(ev)
@@ -91,13 +96,17 @@ class G:
         v = self.pick(self.p["vec"])
         k = self.pick([0, 0, 1, 2])
         val = f"{obj}.{v}()[{k}]"
-        g = self.pick(["none", "ifexp", "and", "ifexp-offbyone", "none"])
+        g = self.pick(["none", "ifexp", "ifexp-else", "and", "or", "ifexp-offbyone", "none"])
         self.labels.add("index:" + g)
         c = self.const()
         if g == "none":
             return val, None
         if g == "ifexp":
             return f"({val} if {obj}.{v}().Count() > {k} else {c})", f"({val} if True else {c})"
+        if g == "ifexp-else":
+            return f"({c} if {obj}.{v}().Count() <= {k} else {val})", f"({c} if False else {val})"
+        if g == "or":
+            return f"({obj}.{v}().Count() <= {k} or {val} > {c})", f"(False or {val} > {c})"
         if g == "ifexp-offbyone":
             return f"({val} if {obj}.{v}().Count() >= {k} else {c})", f"({val} if True else {c})"
         return f"({obj}.{v}().Count() > {k} and {val} > {c})", f"(True and {val} > {c})"
@@ -109,13 +118,15 @@ class G:
         if not self.p["nonnull"]:
             self.labels.add("link:unguarded")
             return val, None
-        g = self.pick(["none", "ifexp", "and", "or"])
+        g = self.pick(["none", "ifexp", "ifexp-else", "and", "or"])
         self.labels.add("link:" + g)
         c = self.const()
         if g == "none":
             return val, None
         if g == "ifexp":
             return f"({val} if isNonnull({obj}.{l}()) else {c})", f"({val} if True else {c})"
+        if g == "ifexp-else":
+            return f"({c} if (not isNonnull({obj}.{l}())) else {val})", f"({c} if False else {val})"
         if g == "and":
             return f"(isNonnull({obj}.{l}()) and {val} > {c})", f"(True and {val} > {c})"
         return f"((not isNonnull({obj}.{l}())) or {val} > {c})", f"(False or {val} > {c})"
@@ -129,13 +140,17 @@ class G:
         if self.d(st.booleans()):
             s = f"{s}.Where(lambda t: t.{self.pick(ms)}() > {self.const()})"
         val = f"{s}.First().{m}()"
-        g = self.pick(["none", "ifexp", "and"])
+        g = self.pick(["none", "ifexp", "ifexp-else", "and", "or"])
         self.labels.add("sub-First:" + g)
         c = self.const()
         if g == "none":
             return val, None
         if g == "ifexp":
             return f"({val} if {s}.Count() > 0 else {c})", f"({val} if True else {c})"
+        if g == "ifexp-else":
+            return f"({c} if {s}.Count() == 0 else {val})", f"({c} if False else {val})"
+        if g == "or":
+            return f"({s}.Count() == 0 or {val} > {c})", f"(False or {val} > {c})"
         return f"({s}.Count() > 0 and {val} > {c})", f"(True and {val} > {c})"
 
 
